@@ -42,16 +42,10 @@ def opRt (l : Line) : Except String String := do
     pure (s!"same={b01 same} len={b01 lenok} self={b01 selfok} sorted=1" ++ "\trt")
   | _, _ => pure "undecodable"
 
-/-- `benc.stream in=<hex>`: `Decoder.Decode` called until it fails: the values of the stream, in order -/
-partial def streamVals (inp : Bytes) (acc : List String) (n : Nat) : List String :=
-  if n = 0 then acc.reverse
-  else match dec (2 * inp.length + 2) inp with
-    | .ok (v, rest) => streamVals rest (canon v :: acc) (n - 1)
-    | .error _ => acc.reverse
-
+/-- `benc.stream in=<hex>`: `Decoder.Decode` called until it fails (at most 8 times): the values of the stream, in order -/
 def opStream (l : Line) : Except String String := do
   let inp ← l.bytes "in"
-  let vs := streamVals inp [] 8
+  let vs := (decStream 8 inp).1.map canon
   pure (s!"vals=[{";".intercalate vs}]\tstream{vs.length}")
 
 def handle (l : Line) : Option (Except String String) :=
